@@ -116,6 +116,13 @@ Proof. exact peek_set. Qed.
 Theorem c15_facade_get_keeps_answers : forall c k k', c_peek (fst (c_get c k)) k' = c_peek c k'.
 Proof. exact peek_get. Qed.
 
+(* ---- values with sizes in the LRU facade: a write of a value bigger than the whole capacity leaves nothing cached
+        (so the key is not cached: coherent), a value that fits is cached by the write ---- *)
+Theorem c15_lru_oversize_write_uncached : forall c k v n, c_cap c = Some n -> (n < vsize v)%nat -> c_ents (c_set c k v) = [].
+Proof. exact set_oversize. Qed.
+Theorem c15_lru_fitting_write_cached : forall c k v n, c_cap c = Some n -> (vsize v <= n)%nat -> c_peek (c_set c k v) k = Some v.
+Proof. exact set_fits. Qed.
+
 (* ---- the round-0 prototype: coherence for ANY facade obeying the two laws (abstract function-map model of Mux.v) ---- *)
 Theorem c15_generic_facade_coherent : forall cset cdel,
   (forall c k v k' v', cset c k v k' = Some v' -> (k' = k /\ v' = v) \/ (k' <> k /\ c k' = Some v')) ->
@@ -130,7 +137,7 @@ Definition ex_labels := [GCall (mkJob 0 (OGet 7) []); GStep 0; GStep 0; GStep 0;
                          GCall (mkJob 1 (OUpdate 7 3) []); GStep 0; GStep 0].          (* peek, updFn: store written *)
 Example c15_ex_stale_window :
   match grun ex_cfg 0 (minit ex_cfg) ex_labels with
-  | Some (g, _) => mcache_at ex_cfg g 7 = Some (Some 5) /\ mstore_at ex_cfg g 7 = Some 103 /\ mcommitted_at ex_cfg g 7 = Some 5
+  | Some (g, _) => mcache_at ex_cfg g 7 = Some (Some 5) /\ mstore_at ex_cfg g 7 = Some 10003 /\ mcommitted_at ex_cfg g 7 = Some 5
   | None => False end.
 Proof. vm_compute. repeat split. Qed.
 (* and the trace of a schedule with two jobs on one key queued behind each other *)
@@ -146,13 +153,13 @@ Definition ex_seq_ops : list (C15_Model.op * list fault) :=
   [(OGet 1, []); (OUpdate 1 7, [FErr]); (OUpdate 1 7, []); (OUpsertLoad 3 4, []); (OAdd 2 5, []); (OAdd 2 6, [])].
 Example c15_ex_seq_nontrivial :
   let g := run_ops ex_seq_cfg (ginit ex_seq_cfg) ex_seq_ops in
-  cache_at ex_seq_cfg g 1 = None /\ store_at ex_seq_cfg g 1 = Some 107          (* evicted by key 3, store updated once *)
-  /\ cache_at ex_seq_cfg g 3 = Some (Some 104) /\ store_at ex_seq_cfg g 3 = Some 104
-  /\ cache_at ex_seq_cfg g 2 = Some (Some 105) /\ store_at ex_seq_cfg g 2 = Some 105.  (* the second add was a duplicate *)
+  cache_at ex_seq_cfg g 1 = None /\ store_at ex_seq_cfg g 1 = Some 10007          (* evicted by key 3, store updated once *)
+  /\ cache_at ex_seq_cfg g 3 = Some (Some 10004) /\ store_at ex_seq_cfg g 3 = Some 10004
+  /\ cache_at ex_seq_cfg g 2 = Some (Some 10005) /\ store_at ex_seq_cfg g 2 = Some 10005.  (* the second add was a duplicate *)
 Proof. vm_compute. repeat split. Qed.
 (* the hypothesis of c15_add_cached_is_dup is satisfiable, and its conclusion is what happens *)
 Example c15_ex_dup :
-  cache_at ex_seq_cfg (run_ops ex_seq_cfg (ginit ex_seq_cfg) ex_seq_ops) 2 = Some (Some 105)
+  cache_at ex_seq_cfg (run_ops ex_seq_cfg (ginit ex_seq_cfg) ex_seq_ops) 2 = Some (Some 10005)
   /\ snd (do_op ex_seq_cfg (run_ops ex_seq_cfg (ginit ex_seq_cfg) ex_seq_ops) (OAdd 2 9) []) = RErr EDupKey.
 Proof. vm_compute. split; reflexivity. Qed.
 (* a successful delete of a cached key *)
@@ -164,7 +171,7 @@ Proof. vm_compute. repeat split. Qed.
 Example c15_ex_delete_fails :
   let g := run_ops ex_seq_cfg (ginit ex_seq_cfg) ex_seq_ops in
   let '(g', evs, r) := do_op ex_seq_cfg g (ODelete 2) [FErr] in
-  r = RErr EInj /\ cache_at ex_seq_cfg g' 2 = Some (Some 105) /\ store_at ex_seq_cfg g' 2 = Some 105.
+  r = RErr EInj /\ cache_at ex_seq_cfg g' 2 = Some (Some 10005) /\ store_at ex_seq_cfg g' 2 = Some 10005.
 Proof. vm_compute. repeat split. Qed.
 
 (* a cached nil is a cached entry: a load that answers (nil, nil) for a missing row is cached as nil (coherent: the
@@ -174,6 +181,15 @@ Example c15_ex_cached_nil :
   cache_at ex_seq_cfg g 9 = Some None /\ store_at ex_seq_cfg g 9 = None
   /\ snd (fst (do_op ex_seq_cfg g (OGet 9) [])) = [EvGet 9 (Some None)] /\ snd (do_op ex_seq_cfg g (OGet 9) []) = ROk None
   /\ snd (do_op ex_seq_cfg g (OAdd 9 4) []) = RErr EDupKey.
+Proof. vm_compute. repeat split. Qed.
+
+(* a cached key grows past the whole capacity: datum 1203 is a cache.Value of size 11, the LRU holds 10 *)
+Definition ex_big_cfg := mkCfg 1 (Some 10%nat) [] [(7, 1105)].        (* the row starts with a value of size 10 *)
+Example c15_ex_oversize_growth :
+  let g1 := run_ops ex_big_cfg (ginit ex_big_cfg) [(OGet 7, [])] in
+  let g2 := run_ops ex_big_cfg (ginit ex_big_cfg) [(OGet 7, []); (OUpdate 7 1203, [])] in
+  cache_at ex_big_cfg g1 7 = Some (Some 1105) /\ vsize (Some 1105) = 10%nat
+  /\ store_at ex_big_cfg g2 7 = Some 11203 /\ vsize (Some 11203) = 11%nat /\ cache_at ex_big_cfg g2 7 = None.
 Proof. vm_compute. repeat split. Qed.
 
 Print Assumptions c15_case_sound.
@@ -204,3 +220,6 @@ Print Assumptions c15_ex_dup.
 Print Assumptions c15_ex_delete.
 Print Assumptions c15_ex_delete_fails.
 Print Assumptions c15_ex_cached_nil.
+Print Assumptions c15_lru_oversize_write_uncached.
+Print Assumptions c15_lru_fitting_write_cached.
+Print Assumptions c15_ex_oversize_growth.
